@@ -144,6 +144,12 @@ func ruleGap(c *Ctx) {
 									return &avScaled{base: ls.base, off: ls.off - k}, true
 								}
 							}
+							// a divisor selected earlier on this path (a variable holding a known power of ten)
+							if ri, ok := r.(avInt); ok && ri.v > 0 {
+								if k, ok := isPow10(big.NewInt(ri.v)); ok {
+									return &avScaled{base: ls.base, off: ls.off - k}, true
+								}
+							}
 							return top, true
 						}
 					case token.REM:
@@ -253,8 +259,31 @@ func ruleGapMod(c *Ctx) {
 		}
 		perFn := 0
 		check := func(list []ast.Stmt, at ast.Node) {
-			mods := map[string]*big.Int{}
-			divs := map[string]*big.Int{}
+			// divisor: a constant, or a variable that holds the power of ten selected earlier
+			type divisor struct {
+				k   *big.Int
+				key string
+			}
+			same := func(a, b *divisor) bool {
+				if a == nil || b == nil {
+					return false
+				}
+				if a.k != nil && b.k != nil {
+					return a.k.Cmp(b.k) == 0
+				}
+				return a.k == nil && b.k == nil && a.key == b.key
+			}
+			divisorOf := func(e ast.Expr) *divisor {
+				if k, ok := constBig(p.constOf(e)); ok {
+					return &divisor{k: k}
+				}
+				if key := p.exprKey(e); key != "" {
+					return &divisor{key: key}
+				}
+				return nil
+			}
+			mods := map[string]*divisor{}
+			divs := map[string]*divisor{}
 			var scan func(n ast.Node)
 			scan = func(n ast.Node) {
 				ast.Inspect(n, func(m ast.Node) bool {
@@ -262,17 +291,22 @@ func ruleGapMod(c *Ctx) {
 					case *ast.CaseClause:
 						return false // separate block
 					case *ast.BinaryExpr:
-						if x.Op == token.REM {
-							if k, ok := constBig(p.constOf(x.Y)); ok {
-								if key := p.exprKey(x.X); key != "" {
-									mods[key] = k
+						if key := p.exprKey(x.X); key != "" && limbsOf(p.typeOf(x.X)) == 1 {
+							if d := divisorOf(x.Y); d != nil {
+								switch x.Op {
+								case token.REM:
+									mods[key] = d
+								case token.QUO:
+									if d.k == nil || d.k.Cmp(big.NewInt(1)) > 0 {
+										divs[key] = d
+									}
 								}
 							}
 						}
 					case *ast.AssignStmt:
 						if x.Tok == token.QUO_ASSIGN && len(x.Lhs) == 1 {
-							if k, ok := constBig(p.constOf(x.Rhs[0])); ok {
-								divs[p.exprKey(x.Lhs[0])] = k
+							if d := divisorOf(x.Rhs[0]); d != nil {
+								divs[p.exprKey(x.Lhs[0])] = d
 							}
 						}
 					}
@@ -285,13 +319,31 @@ func ruleGapMod(c *Ctx) {
 				}
 				scan(s)
 			}
-			for key, d := range divs {
+			keys := make([]string, 0, len(divs))
+			for key := range divs {
+				keys = append(keys, key)
+			}
+			sort.Strings(keys)
+			for _, key := range keys {
+				d := divs[key]
 				n++
 				perFn++
 				m := mods[key]
-				l10, isP := isPow10(d)
-				c.check(m != nil && m.Cmp(d) == 0 && isP, fmt.Sprintf("gapmod:%s#%d", fn, perFn), at, fmt.Sprintf("x %% 10^%d tested, x /= 10^%d", l10, l10),
-					fmt.Sprintf("%s: a coefficient is divided by %s but the dropped digits are tested with %% %v: some dropped digit is never examined (or a kept one is)", fn, d, m))
+				desc := func(v *divisor) string {
+					if v == nil {
+						return "nothing"
+					}
+					if v.k != nil {
+						return v.k.String()
+					}
+					return v.key
+				}
+				isP := true
+				if d.k != nil {
+					_, isP = isPow10(d.k)
+				}
+				c.check(same(m, d) && isP, fmt.Sprintf("gapmod:%s#%d", fn, perFn), at, fmt.Sprintf("x %% %s tested, x / %s", desc(d), desc(d)),
+					fmt.Sprintf("%s: a coefficient is divided by %s but the dropped digits are tested with %% %s: some dropped digit is never examined (or a kept one is)", fn, desc(d), desc(m)))
 			}
 		}
 		ast.Inspect(fd.Body, func(nd ast.Node) bool {
@@ -304,7 +356,7 @@ func ruleGapMod(c *Ctx) {
 			return true
 		})
 	}
-	if n < 24 {
+	if n < 8 {
 		c.undecided("gapmod.count", nil, fmt.Sprintf("only %d scalar divisions found", n))
 	}
 }
